@@ -3,6 +3,7 @@
 use crate::engine::PartDef;
 
 pub mod c01;
+pub mod c02;
 pub mod c12;
 pub mod c13;
 pub mod c14;
@@ -15,6 +16,7 @@ pub type PropDef = (&'static str, &'static str, Vec<PartDef>, &'static str, Vec<
 pub fn lookup(id: &str) -> Option<PropDef> {
     match id {
         "C01" => Some(("C01", c01::TITLE, c01::parts(), c01::RULE, c01::assumptions())),
+        "C02" => Some(("C02", c02::TITLE, c02::parts(), c02::RULE, c02::assumptions())),
         "C12" => Some(("C12", c12::TITLE, c12::parts(), c12::RULE, c12::assumptions())),
         "C13" => Some(("C13", c13::TITLE, c13::parts(), c13::RULE, c13::assumptions())),
         "C15" => Some(("C15", c15::TITLE, c15::parts(), c15::RULE, c15::assumptions())),
